@@ -724,7 +724,7 @@ func (ex *Exec) convert(st *State, v Val, from, to types.Type, pos token.Pos) Va
 			// sign-extension of a value: lengths and indices are non-negative in this code base
 			return t
 		}
-		return sym.App(sym.Int, fmt.Sprintf("trunc%d", tbits), t)
+		return Trunc(tbits, t)
 	case tok && tb.Info()&types.IsString != 0:
 		// []byte -> string
 		if sv, ok := v.(*SliceVal); ok {
